@@ -364,6 +364,14 @@ class Rule_AL05(BaseRule):
                 loop_while=sp.or_(sp.is_whitespace(), sp.is_meta()),
             )
         )
+        if to_delete:
+            # If the walk back stopped at an inline comment, keep the line
+            # break which ends that comment. Otherwise whatever follows the
+            # alias would be joined onto the comment line (i.e. commented out).
+            siblings = alias.from_expression_element.segments
+            stop_idx = siblings.index(to_delete[-1]) - 1
+            if stop_idx >= 0 and siblings[stop_idx].is_type("inline_comment"):
+                to_delete = to_delete.select(sp.not_(sp.is_type("newline")))
         fixes += [LintFix.delete(seg) for seg in to_delete]
         return LintResult(
             anchor=alias.segment,
